@@ -30,10 +30,20 @@ var vfSources = []string{
 	"package p\n\ntype T[K comparable, V any] struct {\n\ta K // key\n\n\t// value\n\tb V\n}\n\ntype I interface {\n\tM() // m\n}\n\nfunc g() {\n\tf(\n\t\t1, // one\n\t\t2,\n\t)\n}\n",
 	// 4: import block with comments and blank line, const block, select
 	"package p\n\nimport (\n\t\"a\" // std\n\n\t// third party\n\tb \"x.y/b\"\n)\n\nconst (\n\tA = iota // first\n\tB\n)\n\nfunc h(c chan int) {\n\tselect {\n\tcase <-c:\n\t\t// recv\n\tdefault:\n\t}\n}\n",
+	// 5: own-line comments in front of closing parentheses (specs, parameters, arguments), non-ASCII literal
+	"package p\n\nvar (\n\ta = 1\n\t// last in block\n)\n\nfunc f(\n\ta int,\n\t// after last parameter\n) {\n\tg(\n\t\t\"h\u00e9llo\", /* c */\n\t\t2,\n\t\t// after last argument\n\t)\n}\n",
+}
+
+// two files of one package for the directory / *ast.Package path: a multi-line block comment in the
+// first lies on the line numbers on which the second has blank lines and separating line breaks
+var vfDirSources = [2]string{
+	"package p\n\n/*\n a\n b\n c\n*/\nvar x = 1\n",
+	"package p\n\nvar y = 2\n\n// c\nvar z = 3\n\nvar w = 4\n",
 }
 
 type vfItemPos struct {
 	start, end token.Pos // end is the position of the last byte
+	comment    bool
 }
 
 func vfItemsOf(f *ast.File) []vfItemPos {
@@ -48,11 +58,11 @@ func vfItemsOf(f *ast.File) []vfItemPos {
 		if l == 0 {
 			continue
 		}
-		items = append(items, vfItemPos{pos, pos + token.Pos(l) - 1})
+		items = append(items, vfItemPos{pos, pos + token.Pos(l) - 1, false})
 	}
 	for _, cg := range f.Comments {
 		for _, c := range cg.List {
-			items = append(items, vfItemPos{c.Slash, c.Slash + token.Pos(len(c.Text)) - 1})
+			items = append(items, vfItemPos{c.Slash, c.Slash + token.Pos(len(c.Text)) - 1, true})
 		}
 	}
 	// order by start position (insertion sort: both lists are already sorted)
@@ -79,6 +89,38 @@ func vfPipeline(src string) {
 		return
 	}
 	vfReach("decorated")
+	vfCompareRestored(fset, f, df)
+}
+
+// vfPipelineDir: the *ast.Package path (what ParseDir does): two files parsed into one FileSet,
+// decorated together by the real DecorateNode (map iteration order forked), each restored and compared.
+func vfPipelineDir() {
+	fset := token.NewFileSet()
+	fset.AddFile("prior.go", -1, vfInt("priorSize", 0, 1<<20))
+	f0, bad0 := vfParseInto(fset, vfDirSources[0])
+	f1, bad1 := vfParseInto(fset, vfDirSources[1])
+	vfAssert(!bad0 && !bad1 && f0 != nil && f1 != nil, "sources-parse")
+	if f0 == nil || f1 == nil {
+		return
+	}
+	pkg := &ast.Package{Name: "p", Files: map[string]*ast.File{"a.go": f0, "b.go": f1}}
+	d := NewDecorator(fset)
+	vfMapOrderFork(true)
+	out, err := d.DecorateNode(pkg)
+	vfMapOrderFork(false)
+	vfAssert(err == nil, "decorate-ok")
+	if err != nil {
+		return
+	}
+	dp := out.(*dst.Package)
+	vfAssert(len(dp.Files) == 2, "both-files-decorated")
+	vfAssert(d.Filenames[dp.Files["a.go"]] == "a.go" && d.Filenames[dp.Files["b.go"]] == "b.go", "file-names-recorded")
+	vfReach("decorated")
+	vfCompareRestored(fset, f0, dp.Files["a.go"])
+	vfCompareRestored(fset, f1, dp.Files["b.go"])
+}
+
+func vfCompareRestored(fset *token.FileSet, f *ast.File, df *dst.File) {
 	rfset := token.NewFileSet()
 	rfset.AddFile("other.go", -1, vfInt("otherSize", 0, 1<<20))
 	res := &Restorer{Map: newMap(), Fset: rfset}
@@ -158,9 +200,10 @@ func vfPipeline(src string) {
 		return
 	}
 	for i := 1; i < len(pi); i++ {
-		po := fset.Position(pi[i].start).Line - fset.Position(pi[i-1].end).Line
-		ro := rfset.Position(ri[i].start).Line - rfset.Position(ri[i-1].end).Line
-		vfAssert(vfCap2(po) == vfCap2(ro), "same-line-structure")
+		pp, pq := fset.Position(pi[i-1].end), fset.Position(pi[i].start)
+		rp, rq := rfset.Position(ri[i-1].end), rfset.Position(ri[i].start)
+		vfAssert(vfCap2(pq.Line-pp.Line) == vfCap2(rq.Line-rp.Line), "same-line-structure")
+		vfAssert(ri[i-1].end < ri[i].start, "restored-items-do-not-overlap")
 	}
 }
 
@@ -169,5 +212,7 @@ func VerifC01Pipeline1() { vfPipeline(vfSources[1]) }
 func VerifC01Pipeline2() { vfPipeline(vfSources[2]) }
 func VerifC01Pipeline3() { vfPipeline(vfSources[3]) }
 func VerifC01Pipeline4() { vfPipeline(vfSources[4]) }
+func VerifC01Pipeline5() { vfPipeline(vfSources[5]) }
+func VerifC01PipelineDir() { vfPipelineDir() }
 
 var _ = dst.NewIdent
